@@ -2205,7 +2205,13 @@ static int64_t eval3(Node *node, char ***label) {
   case ND_ADD:
   case ND_SUB: {
     int64_t lhs = eval2(node->lhs, label);
-    int64_t rhs = eval(node->rhs);
+
+    // The address may be the right operand of '+' as well.
+    int64_t rhs;
+    if (node->kind == ND_ADD && label && !*label)
+      rhs = eval2(node->rhs, label);
+    else
+      rhs = eval(node->rhs);
     return (node->kind == ND_ADD) ? lhs + rhs : lhs - rhs;
   }
   case ND_DIV:
